@@ -99,8 +99,9 @@ static std::string header() { char rv[12], av[12]; rtosc_version cur = rtosc_cur
     return std::string("% RT OSC v") + rv + " savefile\n% " + APPNAME + " v" + av + "\n"; }
 
 // a dispatcher with the hooks savefile.h documents: discard a message, abort the loading, rename a port, change an argument
-struct HookDisp : rtosc::savefile_dispatcher_t { std::set<std::string> discard_; std::string abort_, ren_from, ren_to, inc_addr; int inc_by = 0; int seen = 0;
+struct HookDisp : rtosc::savefile_dispatcher_t { std::set<std::string> discard_; std::string abort_, ren_from, ren_to, inc_addr; int inc_by = 0; int seen = 0; int vers[12] = {-1, -1, -1, -1, -1, -1, -1, -1, -1, -1, -1, -1};
     int on_dispatch(size_t portname_max, char *portname, size_t, size_t nargs, rtosc_arg_val_t *args) override { ++seen;
+        const rtosc_version *vs[4] = {&rtosc_filever, &rtosc_curver, &app_filever, &app_curver}; for (int q = 0; q < 4; ++q) { vers[3 * q] = vs[q]->major; vers[3 * q + 1] = vs[q]->minor; vers[3 * q + 2] = vs[q]->revision; }
         if (!abort_.empty() && abort_ == portname) return abort;
         if (discard_.count(portname)) return discard;
         if (!inc_addr.empty() && inc_addr == portname && nargs == 1 && args[0].type == 'i') args[0].val.i += inc_by;
@@ -175,9 +176,13 @@ static void run_script(const J &script, FILE *out) {
                 w.kbool("header_ok", hdr).key("lines"); saved_lines(w, body);
                 HookDisp hd; for (auto &d : op["discard"].a) hd.discard_.insert(d.s); hd.abort_ = op["abort"].s; hd.ren_from = op["ren_from"].s; hd.ren_to = op["ren_to"].s; hd.inc_addr = op["inc_addr"].s; hd.inc_by = (int)op["inc_by"].num();
                 w.key("hook").obj().key("discard").arr(); for (auto &d : op["discard"].a) w.str(d.s); w.end_arr().kstr("abort", hd.abort_).kstr("ren_from", hd.ren_from).kstr("ren_to", hd.ren_to).kstr("inc_addr", hd.inc_addr).knum("inc_by", hd.inc_by).end_obj();
+                // the file claims to come from other versions of the library and of the application: the hook must be told so
+                if (op.has("file_vers")) { char hb[160]; snprintf(hb, sizeof hb, "%% RT OSC v%d.%d.%d savefile\n%% %s v%d.%d.%d\n", (int)op["file_vers"][0].num(), (int)op["file_vers"][1].num(), (int)op["file_vers"][2].num(), APPNAME,
+                                                                 (int)op["file_vers"][3].num(), (int)op["file_vers"][4].num(), (int)op["file_vers"][5].num()); f = std::string(hb) + body;
+                    w.key("file_vers").arr(); for (int q = 0; q < 6; ++q) w.num((long)op["file_vers"][q].num()); w.end_arr(); }
                 App fresh; FlushBuf tb(f.size() + 1); memcpy(tb.p, f.c_str(), f.size() + 1);
                 int rv = load_from_file((const char *)tb.p, App::ports, &fresh, APPNAME, APPVER, &hd);
-                w.knum("ret", rv).knum("hook_calls", hd.seen).key("loaded"); state(w, fresh); }
+                w.knum("ret", rv).knum("hook_calls", hd.seen).key("vers").arr(); for (int q = 0; q < 12; ++q) w.num(hd.vers[q]); w.end_arr().key("loaded"); state(w, fresh); }
             else if (k == "load" || k == "loadraw") { std::string text;
                 if (k == "load") { text = header(); for (auto &l : op["lines"].a) text += l.s + "\n"; w.key("lines").arr(); for (auto &l : op["lines"].a) w.str(l.s); w.end_arr(); }
                 else { text = op["text"].s; w.kstr("text", text); }
